@@ -139,6 +139,17 @@ Theorem C01_fock_axes_twomode_mixed :
 Proof. exact @twomode_mixed_correct. Qed.
 Print Assumptions C01_fock_axes_twomode_mixed.
 
+Theorem C01_fock_axes_twomode_mixed_rows :
+  forall (V : Type) (F Fc : @tensor V -> @tensor V) (n m1 m2 : nat) (rho : @tensor V) (idx : list nat),
+    respects_shape 2 F -> respects_shape 2 Fc ->
+    m1 < n -> m2 < n -> m1 <> m2 -> length idx = 2 * n ->
+    apply_twomode_mixed F Fc n m1 m2 rho idx
+    = Fc (fun cj => F (fun rj => rho (put (put idx [2 * m1 + 1; 2 * m2 + 1] cj) [2 * m1; 2 * m2] rj))
+                      [nth (2 * m1) idx 0; nth (2 * m2) idx 0])
+         [nth (2 * m1 + 1) idx 0; nth (2 * m2 + 1) idx 0].
+Proof. exact @twomode_mixed_correct_rows. Qed.
+Print Assumptions C01_fock_axes_twomode_mixed_rows.
+
 (* the code before the fix (switch_list_2[[1, t2]] = ...): what it did, when it was right, and that it was wrong *)
 Theorem C01_fock_axes_twomode_pure_old_action :
   forall (V : Type) (F : @tensor V -> @tensor V) (n t1 t2 : nat) (psi : @tensor V) (idx : list nat),
